@@ -318,6 +318,7 @@ func (info *decodeInfo) decodeCharString(code []byte) (*Glyph, error) {
 					return nil, errStackUnderflow
 				}
 				if len(stack) >= 11 {
+					startX, startY := posX, posY
 					rCurveTo(stack[0], stack[1],
 						stack[2], stack[3],
 						stack[4], stack[5])
@@ -327,12 +328,19 @@ func (info *decodeInfo) decodeCharString(code []byte) (*Glyph, error) {
 					if math.Abs(dx) > math.Abs(dy) {
 						rCurveTo(stack[6], stack[7],
 							stack[8], stack[9],
-							extra, -dy)
+							extra, 0)
+						posY = startY
 					} else {
 						rCurveTo(stack[6], stack[7],
 							stack[8], stack[9],
-							-dx, extra)
+							0, extra)
+						posX = startX
 					}
+					// The last point returns to the start coordinate on the minor
+					// axis.  This is not an operand, so it is not subject to the
+					// operand range applied by rCurveTo.
+					last := res.Cmds[len(res.Cmds)-1]
+					last.Args[4], last.Args[5] = posX, posY
 					// fd = 0.5
 				}
 				clearStack()
@@ -355,13 +363,18 @@ func (info *decodeInfo) decodeCharString(code []byte) (*Glyph, error) {
 					return nil, errStackUnderflow
 				}
 				if len(stack) >= 9 {
+					startY := posY
 					rCurveTo(stack[0], stack[1],
 						stack[2], stack[3],
 						stack[4], 0)
-					dy := stack[1] + stack[3] + stack[7]
 					rCurveTo(stack[5], 0,
 						stack[6], stack[7],
-						stack[8], -dy)
+						stack[8], 0)
+					// The last point is at the height of the start point.  This is
+					// not an operand, so it is not subject to the operand range
+					// applied by rCurveTo.
+					posY = startY
+					res.Cmds[len(res.Cmds)-1].Args[5] = posY
 					// fd = 0.5
 				}
 				clearStack()
